@@ -1,6 +1,7 @@
 """Property -> rules registry.  Each rule is a function(ctx) recording instances on ctx."""
 from rules import io as r_io
 from rules import hdr_tolerant as r_hdrt
+from rules import wr_frame as r_wrf
 
 PROPS = {}
 
@@ -40,7 +41,7 @@ prop("C20",
                 "only under the 'every statement may raise' abstraction.")
 
 prop("C19",
-     [r_hdrt.rule_catchall, r_hdrt.rule_total, r_hdrt.rule_steer_lookup],
+     [r_hdrt.rule_catchall, r_hdrt.rule_total, r_hdrt.rule_steer_lookup, r_hdrt.rule_no_state],
      "Error-discipline analysis of the header loop (reader.parse_header_items_section): the call that parses a raw "
      "line is inside a try with a catch-all handler; by control dependence the handler raises only when "
      "ignore_header_errors is false, then raises LASHeaderError whose message derives (provenance) from the line, "
@@ -50,7 +51,8 @@ prop("C19",
      "line-derived data (unguarded constant index, key/index from the line, number constructors, .index/.groupdict, "
      "asserts, division, regex built from the line) sits outside a catch-all try, and every constant key read from "
      "the parsed-line dict is a key of the dict literal read_header_line returns (HDR.TOTAL). The steering lookups "
-     "after each section are membership-guarded (HDR.STEER-LOOKUP). Not decided: that junk lines which do parse "
+     "after each section are membership-guarded (HDR.STEER-LOOKUP); nothing in the header loop's closure writes "
+     "module-level state and the per-line dict is fresh (HDR.NO-STATE). Not decided: that junk lines which do parse "
      "leave genuine items unchanged (value-level).",
      COMMON_ASSUMPTIONS + ["the catalogue of partial operation kinds in rules/hdr_tolerant.py (operations outside it, "
                            "e.g. str methods, are total on str)"],
@@ -60,3 +62,26 @@ prop("C19",
      level_text="Static guarantee of the structural clauses 'every raising operation on header-line text is under the "
                 "catch-all handler' and 'the handler honours the flag'; the value-level non-interference of junk "
                 "lines that parse is not decided.")
+
+prop("C16",
+     [r_wrf.rule_frame, r_wrf.rule_standardize, r_wrf.rule_refresh, r_wrf.rule_determinism],
+     "Frame condition by may-write effect summaries: the set of locations writer.write / LASFile.write may modify "
+     "through the LASFile (access paths with aliasing through loop variables and properties, propagated over the "
+     "resolved call graph; SectionItems/HeaderItem hooks by contract) is a subset of the documented side effects - "
+     "WRAP item (only under wrap is True/False, by control dependence), STRT/STOP/STEP value and unit, first curve "
+     "unit, ~Well/~Parameter values whose right-hand side is standardize_value(item.value, item.unit) - and no "
+     "module-level state (WR.FRAME); standardize_value returns only its argument, 0 or '' (WR.STANDARDIZE); the "
+     "refresh call is controlled by `not array_equal(index_initial, index)` (True without initial index) OR "
+     "`index_initial[-1] != STOP` with no tolerance function in its provenance, the refreshed values derive from "
+     "index[0], index[-1], index[1]-index[0], and unit alignment precedes the first output on every path "
+     "(WR.REFRESH); no clock/random/environment/identity/set-order source or mutated default argument in the "
+     "writer's closure (WR.DETERMINISM). Not decided: byte-identity of two outputs and numerical truth of the "
+     "written STRT/STOP/STEP (value level).",
+     COMMON_ASSUMPTIONS + ["the SectionItems/HeaderItem mutation contract stated in sa/effects.py (verified against "
+                           "las_items.py by the C13/C15 rules)", "external calls other than the catalogued numpy "
+                           "in-place functions / container mutators do not mutate their arguments"],
+     "DESIGN.md section 4, C16",
+     technique="may-write effect summaries over access paths + control dependence / provenance of the refresh guard",
+     level_text="Static frame guarantee: on the analysed source write() cannot reach a store to any LASFile location "
+                "outside the documented list, and the refresh decision/values have the documented shape; "
+                "byte-level determinism and numeric truth are not decided.")
